@@ -32,6 +32,11 @@ type MonitoredItemService struct {
 func (s *MonitoredItemService) DeleteMonitoredItem(id uint32) {
 	s.Mu.Lock()
 	defer s.Mu.Unlock()
+	s.deleteMonitoredItem(id)
+}
+
+// deleteMonitoredItem is DeleteMonitoredItem for callers that hold s.Mu.
+func (s *MonitoredItemService) deleteMonitoredItem(id uint32) {
 	item, ok := s.Items[id]
 	if !ok {
 		// id does not exist.
@@ -364,8 +369,10 @@ func (s *MonitoredItemService) DeleteMonitoredItems(sc *uasc.SecureChannel, r ua
 			continue
 		}
 
-		// this function gets the lock so we need to do it in the background so it can happen after our lock is released.
-		go s.DeleteMonitoredItem(id)
+		// we hold the lock. The item is removed here and not in a goroutine per
+		// item: a request can name 100000 ids, and that many goroutines queueing
+		// for the lock keep every other request that needs it waiting for seconds.
+		s.deleteMonitoredItem(id)
 		results[i] = ua.StatusOK
 	}
 
